@@ -617,6 +617,28 @@ def run_pipe(case):
             if [b.ident(s) for s in q] != [b.ident(s) for s in ab]:
                 oracle.append({"what": "%s changes list(p)" % name,
                                "detail": {"p": [b.ident(s) for s in ab], "with_empty": [b.ident(s) for s in q]}})
+    # history independence: a long-lived pipeline evaluated on other dictionaries in between (a defaulted parameter's
+    # key absent, then present, or the other way round) gives what a freshly built one gives
+    for k, has_default in sorted(set(named)):
+        if not has_default:
+            continue
+        o2 = dict(options)
+        if k in o2:
+            del o2[k]
+        else:
+            o2[k] = 7
+        fresh = Build(case).expr(case["expr"])
+        for x in inputs:
+            warm = res(lambda x=x: p.transform(copy.deepcopy(x), o2))
+            cold = res(lambda x=x: fresh.transform(copy.deepcopy(x), o2))
+            if not same(warm, cold):
+                oracle.append({"what": "transform depends on what the pipeline was evaluated with earlier",
+                               "detail": {"input": enc(x), "first": enc_s(options), "then": enc_s(o2), "got": warm, "fresh": cold}})
+        for x, r in zip(inputs, out["tf"]):
+            again = res(lambda x=x: p.transform(copy.deepcopy(x), options))
+            if not same(again, r):
+                oracle.append({"what": "transform on the same dictionary changed after the pipeline was evaluated on another one",
+                               "detail": {"input": enc(x), "options": enc_s(options), "between": enc_s(o2), "before": r, "after": again}})
     out["oracle"] = oracle
     out["alias"] = {str(t): a for t, a in b.alias.items() if t != a}
     return out
